@@ -8,6 +8,7 @@
 (***************************************************************************)
 EXTENDS PdfObjects
 
+
 \* definitions of one revision: num -> [gen, val]
 RevDefs(rev) ==
     LET plain == FoldLeft(LAMBDA acc, o : MapPut(acc, o.num, [gen |-> o.gen, val |-> o.val]), EmptyMap, rev.objs)
